@@ -108,7 +108,7 @@ var ruleIdx = &Rule{
 			}
 		}
 		c.Stats["index_of_appended_sites"] = n
-		obs = append(obs, floor("IDX/index-of-appended", "index-table records of len(S)-1 in appending functions", n, 6))
+		obs = append(obs, floor("IDX/index-of-appended", "index-table records of len(S)-1 in appending functions", n, 3))
 		return obs
 	},
 }
